@@ -590,6 +590,15 @@ theorem closed_run {P : Bool → H11M.St → Prop} (hC : Closed P) (cfg : Cfg) (
 theorem close_sites_guard : Extracted.Guards.h11RequestResetsComplete = true ∧ Extracted.Guards.h11EomSetsComplete = true ∧
     Extracted.Guards.httpStartHeadersVerbatim = true ∧ Extracted.Guards.h11CloseOnFinalOnly = true := by decide
 
+/-- **a protocol error is only ever ignored after a COMPLETE request**: the guard of `except h11.RemoteProtocolError: if <guard>:
+    break` in `_handle_events`, extracted on every run as a function of its atoms (a stream is live, `request_complete`, h11's two
+    states), is `stream is not None and request_complete` - whatever h11's writer is doing (the application may have begun its
+    response while the body is still arriving).  The model's `malformed` branch evaluates the extracted guard (`errIgnored`);
+    `malformed_body_closes` below needs this equation. -/
+theorem error_ignored_only_after_complete_request (streamLive requestComplete : Bool) (our their : Nat) :
+    Extracted.Guards.h11ErrorIgnored streamLive requestComplete our their = (streamLive && requestComplete) := by
+  rfl
+
 /-- **the server's own `connection: close` goes on final response heads only**: an interim head (status below 200: the
     101 of a websocket accept, whatever `keep_alive_requests` is) is the stream's headers followed by the configured ones
     and nothing else, so the upgrade that is the last request a connection may serve is still answered by the faithful
@@ -689,7 +698,9 @@ theorem malformed_body_closes (cfg : Cfg) (token : Bytes → Bytes) (ext : Optio
   unfold onLibEv
   have hc : (st.pc != .inLoop || st.switched) = false := by simp [hpc, hsw]
   rw [if_neg (by simp [hc])]
-  simp only [onLibEvBody, hlt, Bool.and_false]
+  have hign : errIgnored { (loopTop cfg st).1 with lib := H11M.recvError (loopTop cfg st).1.lib } = false := by
+    rw [errIgnored_eq error_ignored_only_after_complete_request]; simp only [hlt, Bool.and_false]
+  simp only [onLibEvBody, hign, Bool.false_eq_true, if_false]
   refine ⟨_, _, rfl, by simp, rfl, ?_⟩
   intro hst
   have hcond : ((H11M.recvError (loopTop cfg st).1.lib).server == .idle || (H11M.recvError (loopTop cfg st).1.lib).server == .sendResponse) = true := by
